@@ -55,7 +55,10 @@ Theorem C17_inverse_Q : forall s raw v,
 Proof. exact inverse_forward. Qed.
 Print Assumptions C17_inverse_Q.
 
-(* Floating point (binary64, Python's evaluation order), PARTIAL.
+(* Floating point (binary64, Python's evaluation order), PARTIAL in this file: the statement for
+   ALL M, B, K1, K2 is proved analytically (Flocq + Interval) as C17F_float_forward /
+   C17F_float_inverse in Props/C17F.v, which is compiled on every run but stays outside the coqchk
+   pass (see there).  Here, inside the coqchk closure, the finite sweep.
    Full statement: for all M, B in -512..511, K1, K2 in -8..7, fmt < 3, raw < 256:
      the float result is finite, |float - formula| <= 2^-50 (|M x| + |B| 10^K1) 10^K2, and
      (M <> 0, not one's-complement -0) the float inverse of the float result is raw.
